@@ -328,7 +328,7 @@ MUTANTS = [
     {'id': 'solid_copy_reuses_id', 'file': 'vmf.py', 'find': "    def __attrs_post_init__(self) -> None:\n        self.id = self.map.solid_id.get_id(self.id)", 'replace': "    def __attrs_post_init__(self) -> None:\n        self.id = self.map.solid_id.get_id(self.id) if self.id <= 0 else self.id", 'expect': 'C08.D2'},
     {'id': 'side_uses_solid_manager', 'file': 'vmf.py', 'find': "        self.id = vmf_file.face_id.get_id(des_id)", 'replace': "        self.id = vmf_file.solid_id.get_id(des_id)", 'expect': 'C08.D2'},
     {'id': 'side_release_wrong_manager', 'file': 'vmf.py', 'find': "        self.map.face_id.discard(self.id)", 'replace': "        self.map.solid_id.discard(self.id)", 'expect': 'C08.D3'},
-    {'id': 'remove_ent_releases_id', 'file': 'vmf.py', 'find': "        # The entity ID is not released here.", 'replace': "        self.ent_id.discard(item.id)\n        # The entity ID is not released here.", 'expect': 'C08.D4'},
+    {'id': 'remove_ent_releases_id', 'file': 'vmf.py', 'find': "        # Neither the entity ID nor its node ID are released here.", 'replace': "        self.ent_id.discard(item.id)\n        # Neither the entity ID nor its node ID are released here.", 'expect': 'C08.D4'},
     {'id': 'remove_brush_releases_id', 'file': 'vmf.py', 'find': "            self.brushes.remove(brush)\n", 'replace': "            self.brushes.remove(brush)\n            self.solid_id.discard(brush.id)\n", 'expect': 'C08.D4'},
     {'id': 'fixup_index_from_len', 'file': 'vmf.py', 'find': "            ind = 1\n            while ind in indexes:\n                ind += 1", 'replace': "            ind = len(indexes) + 1", 'expect': 'C08.D5'},
     {'id': 'shared_managers', 'file': 'vmf.py', 'find': "        self.face_id = id_man()  # Ditto for faces", 'replace': "        self.face_id = self.solid_id  # Ditto for faces", 'expect': None, 'note': 'negative control? sharing one manager keeps ids unique across kinds (still unique per kind)'},
